@@ -24,6 +24,12 @@ import WebrtcVerif.Model.RemoteInput
               → declared | add <kind> <stream> <id> | ssrc-err | err-add | err-peek | err-codec | err-early
                 | err-mid-required | err-rid-required | beyond | ambiguous      (handleIncomingSSRC, real SRTP stream)
       cut <nK> <pt>* <pktHex> → short | unknown | updated <pt> | unchanged
+    h probe <isAnswer> <withoutAnswer> <midOK> <ridOK> <ptKnown> <audioOK> <videoOK> <ssrc> <pt> <midID> <ridID> <rsidID>
+            <nT> {<shape> <kind> <mid> <nR> <rid>*}* <nP> {<mid> <rid> <rsid> <pad>}* D…
+              → (uin outcomes) | rid <i> | rtx <i> | notfound | eof | read-err | failed | ambiguous
+              (whole handleIncomingSSRC incl. the probing loop; shape 0 send-only without receiver, 1 recvonly,
+               2 sendrecv, 3/4 the same but stopped)
+    h rt <idx> <bound>*       → read <i> | err                      (RTPReceiver.readRTP for track idx)
     h rr <bound>*             → read <i> | err                      (RTPReceiver.Read on tracks with/without bound RTCP readers)
     h ext <rawHex>            → ok <n> {<key> <value>}* | err      (exportExtensions; a key "fail" is refused)
     p <variant> <semB> <modeB> <n> {r<pktHex>|c<pktHex>}*  → survived   (connected pair, raw RTP/RTCP; search)
@@ -235,6 +241,67 @@ def runHelper (name : String) (params : List String) (s : Session) : String :=
     | none => "bad-op"
   | _, _ => "bad-op"
 
+def pProbeTr : P ProbeTr := fun ts => do
+  let (shape, ts1) ← pNat ts
+  let (_kind, ts2) ← pNat ts1
+  let (mid, ts3) ← pStr ts2
+  let (rids, ts4) ← pCounted pStr ts3
+  pure ({ mid := mid, receiver := if shape == 0 then none else some (decide (shape ≥ 3), rids) }, ts4)
+
+def pPktIds : P PktIds := fun ts => do
+  let (mid, ts1) ← pStr ts
+  let (rid, ts2) ← pStr ts1
+  let (rsid, ts3) ← pStr ts2
+  let (pad, ts4) ← pNat ts3
+  pure ({ mid := mid, rid := rid, rsid := rsid, paddingOnly := pad != 0 }, ts4)
+
+def showIncoming : IncomingResult → String
+  | .declared => "declared"
+  | .added k sid id => s!"add {k} {hexOfStr sid} {hexOfStr id}"
+  | .ssrcErr => "ssrc-err"
+  | .errAdd => "err-add"
+  | .errPeek => "err-peek"
+  | .errCodec => "err-codec"
+  | .errEarly => "err-early"
+  | .errMidRequired => "err-mid-required"
+  | .errRidRequired => "err-rid-required"
+  | .beyond => "beyond"
+
+/-- probe <isAnswer> <withoutAnswer> <midOK> <ridOK> <ptKnown> <audioOK> <videoOK> <ssrc> <pt> <midID> <ridID>
+    <rsidID> <nT> {<shape> <kind> <mid> <nR> <rid>*}* <nP> {<mid> <rid> <rsid> <pad>}* -/
+def runProbe (params : List String) (s : Session) : String :=
+  match params with
+  | ia :: wa :: mo :: ro :: pk :: ao :: vo :: rest =>
+    match [ia, wa, mo, ro, pk, ao, vo].mapM Wire.tokBool, pMany pNat 5 rest with
+    | some [ia, wa, mo, ro, pk, ao, vo], some ([ssrc, pt, midID, ridID, rsidID], rest1) =>
+      match pCounted pProbeTr rest1 with
+      | some (trs, rest2) =>
+        match pCounted pPktIds rest2 with
+        | some (pkts, []) =>
+          if ambiguous s || ambiguousExt s then "ambiguous" else
+          -- an extension whose id is not negotiated (0) is never seen by handleUnknownRTPPacket
+          let pkts := pkts.map fun p =>
+            { p with mid := if midID == 0 then [] else p.mid, rid := if ridID == 0 then [] else p.rid,
+                     rsid := if rsidID == 0 then [] else p.rsid }
+          let peek := if pkts.isEmpty then none else some [128, pt, 0, 0, 0, 0, 0, 0, 0, 0, 0, 0]
+          resStr (handleIncomingSSRCHead s ia wa mo ro (fun _ => pk) (fun k => if k == 1 then ao else vo) ssrc peek) fun
+            | .beyond =>
+              match pkts with
+              | [] => "err-peek"
+              | first :: more =>
+                resStr (probe trs first more) fun
+                  | .rid i => s!"rid {i}"
+                  | .rtx i => s!"rtx {i}"
+                  | .notFound => "notfound"
+                  | .eof => "eof"
+                  | .readErr => "read-err"
+                  | .failed => "failed"
+            | r => showIncoming r
+        | _ => "bad-op"
+      | none => "bad-op"
+    | _, _ => "bad-op"
+  | _ => "bad-op"
+
 def runCut (ts : List String) : String :=
   match pCounted pNat ts with
   | some (known, [pkt]) =>
@@ -254,6 +321,14 @@ def run (args : List String) : String :=
   | "rp" :: _ => "survived"
   | "p" :: _ => "survived"
   | "h" :: "cut" :: rest => runCut rest
+  | "h" :: "rt" :: idx :: bits =>
+    match idx.toNat?, bits.mapM Wire.tokBool with
+    | some i, some bs =>
+      let tracks := (List.range bs.length).zip bs |>.map fun p => if p.2 then some p.1 else none
+      resStr (receiverReadRTP tracks i) fun
+        | none => "err"
+        | some k => s!"read {k}"
+    | _, _ => "bad-op"
   | "h" :: "rr" :: bits =>
     match bits.mapM Wire.tokBool with
     | some bs =>
@@ -268,6 +343,10 @@ def run (args : List String) : String :=
       resStr (exportExtensions e (fun k _ => k == [102, 97, 105, 108])) fun
         | none => "err"
         | some ps => join (["ok", toString ps.length] ++ (ps.map fun p => [hexOfStr p.1, hexOfStr p.2]).flatten)
+    | none => "bad-op"
+  | "h" :: "probe" :: rest =>
+    match splitD rest with
+    | some (params, s) => runProbe params s
     | none => "bad-op"
   | "h" :: name :: rest =>
     match splitD rest with
